@@ -62,10 +62,163 @@ def fun(name, x):
     return x * 2 + 1
 
 
+def make_pool(factory, workers, quota, work_cap=1.0, res_cap=None, name="plain"):
+    import math
+    from windpyutils.parallel.own_proc_pools import FunctorPool, FactoryFunctorPool, FunctorWorker, FunctorWorkerFactory
+
+    class W(FunctorWorker):
+        def __call__(self, x):
+            return fun(name, x)
+
+    class F(FunctorWorkerFactory):
+        def create(self):
+            return W(math.inf if quota is None else quota)
+
+    if factory:
+        return FactoryFunctorPool(workers, F(), work_queue_maxsize=work_cap, results_queue_maxsize=res_cap)
+    return FunctorPool([W() for _ in range(workers)], work_queue_maxsize=work_cap, results_queue_maxsize=res_cap)
+
+
+def two_pools_interleaved():
+    """two pools of the same class alive at once, their calls consumed in lock step: pools are independent of each other"""
+    ok = True
+    for factory in (False, True):
+        a, b = make_pool(factory, 2, 2 if factory else None), make_pool(factory, 2, 1 if factory else None)
+        with a, b:
+            xs, ys = list(range(7)), list(range(100, 109))
+            for ca, cb, ordered_b in ((1, 1, True), (2, 3, True), (1, 2, False)):
+                ib = b.imap(iter(ys), cb) if ordered_b else b.imap_unordered(iter(ys), cb)
+                got_a, got_b = [], []
+                ia = a.imap(iter(xs), ca)
+                for u, v in zip(ia, ib):
+                    got_a.append(u); got_b.append(v)
+                # zip asks A first and stops when A is exhausted: nothing of B was taken and dropped
+                got_b += list(ib)
+                got_a += list(ia)
+                exp_a, exp_b = [fun("plain", x) for x in xs], [fun("plain", y) for y in ys]
+                if got_a != exp_a:
+                    print(f"WRONG two_pools_interleaved: pool A (factory={factory}, chunk {ca}) yielded {got_a}, map gives {exp_a}")
+                    ok = False
+                if (got_b != exp_b) if ordered_b else (sorted(got_b) != exp_b):
+                    print(f"WRONG two_pools_interleaved: pool B (factory={factory}, chunk {cb}, ordered={ordered_b}) yielded "
+                          f"{got_b}, map gives {exp_b}")
+                    ok = False
+    return ok
+
+
+def from_thread():
+    """the pool is created, entered, used and left in a thread that is not the main thread"""
+    import threading
+    res = {}
+
+    def body():
+        try:
+            for factory in (False, True):
+                with make_pool(factory, 2, 2 if factory else None) as pool:
+                    res[factory] = (list(pool.imap(iter(range(6)), 2)), sorted(pool.imap_unordered(iter(range(5)), 1)))
+        except BaseException as e:  # noqa
+            res["err"] = f"{type(e).__name__}: {e}"
+
+    t = threading.Thread(target=body)
+    t.start()
+    t.join()
+    exp = ([fun("plain", x) for x in range(6)], sorted(fun("plain", x) for x in range(5)))
+    if res.get("err") or res.get(False) != exp or res.get(True) != exp:
+        print(f"WRONG from_thread: {res}, expected {exp} from both kinds of pool")
+        return False
+    return True
+
+
+def low_fd_limit():
+    """many replacements in one pool lifetime while the process may open few files: what a retired worker held is given back"""
+    import resource
+    pool = make_pool(True, 2, 1)
+    ok = True
+    with pool:
+        first = list(pool.imap(iter(range(4)), 1))
+        n_open = len(os.listdir("/proc/self/fd"))
+        soft, hard = resource.getrlimit(resource.RLIMIT_NOFILE)
+        resource.setrlimit(resource.RLIMIT_NOFILE, (min(soft, n_open + 120), hard))
+        try:
+            for k in range(12):
+                data = list(range(k * 10, k * 10 + 20))
+                got = list(pool.imap(iter(data), 1)) if k % 2 else sorted(pool.imap_unordered(iter(data), 1))
+                if got != [fun("plain", x) for x in data]:
+                    print(f"WRONG low_fd_limit: call {k} yielded {got}")
+                    ok = False
+                    break
+        finally:
+            resource.setrlimit(resource.RLIMIT_NOFILE, (soft, hard))
+        if first != [fun("plain", x) for x in range(4)]:
+            ok = False
+    return ok
+
+
+def other_start_methods():
+    """pools whose workers are started by the forkserver / by spawn (the worker's parent process is then not the process that
+    created the worker object), over an input that pauses for more than a second between items and before its end"""
+    import multiprocessing
+    from windpyutils.parallel.own_proc_pools import FunctorPool
+    ok = True
+    for method in ("forkserver", "spawn"):
+        ctx = multiprocessing.get_context(method)
+        cls = CtxWorker.for_context(ctx)
+        with FunctorPool([cls() for _ in range(2)], ctx) as pool:
+            def paused():
+                yield 1
+                yield 2
+                time.sleep(1.6)
+                yield 3
+                yield 4
+                time.sleep(1.3)
+            got = list(pool.imap(paused()))
+            got2 = sorted(pool.imap_unordered(iter(range(5)), 2))
+        if got != [3, 5, 7, 9] or got2 != [1, 3, 5, 7, 9]:
+            print(f"WRONG other_start_methods ({method}): {got}, {got2}")
+            ok = False
+    return ok
+
+
+class CtxWorker:
+    _classes = {}
+
+    @classmethod
+    def for_context(cls, ctx):
+        return {"forkserver": ForkserverWorker, "spawn": SpawnWorker}[ctx.get_start_method()]
+
+
+def _ctx_worker(method):
+    import multiprocessing
+    from windpyutils.parallel.own_proc_pools import BaseFunctorWorker
+    ctx = multiprocessing.get_context(method)
+
+    class _W(BaseFunctorWorker, ctx.Process):
+        def __init__(self):
+            super().__init__(ctx)
+
+        def __call__(self, x):
+            return x * 2 + 1
+
+    return _W
+
+
+ForkserverWorker = _ctx_worker("forkserver")
+ForkserverWorker.__name__ = ForkserverWorker.__qualname__ = "ForkserverWorker"
+SpawnWorker = _ctx_worker("spawn")
+SpawnWorker.__name__ = SpawnWorker.__qualname__ = "SpawnWorker"
+
+
+EXTRA = {"other_start_methods": other_start_methods, "two_pools_interleaved": two_pools_interleaved, "from_thread": from_thread, "low_fd_limit": low_fd_limit}
+
+
 def main(name):
     import math
     from windpyutils.parallel.own_proc_pools import FunctorPool, FactoryFunctorPool, FunctorWorker, FunctorWorkerFactory
 
+    if name in EXTRA:
+        ok = EXTRA[name]()
+        print("DONE" if ok else "FAILED")
+        return 0 if ok else 1
     factory, workers, quota, work_cap, res_cap, calls = SCENARIOS[name]
 
     class W(FunctorWorker):
